@@ -74,9 +74,14 @@ class Ctx:
         if z3.is_false(cond):
             return False
         i = len(self.trace)
+        key = cond.hash()
         if i < len(self.prefix):
-            v, forked = self.prefix[i]
-            self.trace.append((v, forked))
+            v, forked = self.prefix[i][0], self.prefix[i][1]
+            if len(self.prefix[i]) > 2 and self.prefix[i][2] != key:
+                # the re-execution does not ask the question the recorded run asked at this point: the decision
+                # sequence is not a function of the prefix (state leaked between paths) - nothing can be trusted
+                raise EngineError('decision sequence diverged on replay at decision %d: %s' % (i, str(cond)[:200]))
+            self.trace.append((v, forked, key))
             if forked:
                 c = cond if v else z3.Not(cond)
                 self.solver.add(c)
@@ -85,14 +90,14 @@ class Ctx:
         can_t = self._check(cond)
         can_f = self._check(z3.Not(cond)) if can_t else True
         if can_t and not can_f:
-            self.trace.append((True, False))
+            self.trace.append((True, False, key))
             return True
         if can_f and not can_t:
-            self.trace.append((False, False))
+            self.trace.append((False, False, key))
             return False
         if not can_t and not can_f:
             raise Infeasible()
-        self.trace.append((True, True))
+        self.trace.append((True, True, key))
         self.solver.add(cond)
         self.pc.append(cond)
         return True
@@ -101,9 +106,9 @@ class Ctx:
         """prefixes of the unexplored siblings discovered by this run"""
         out = []
         for i in range(len(self.prefix), len(self.trace)):
-            v, forked = self.trace[i]
+            v, forked, key = self.trace[i]
             if forked and v:
-                out.append(self.trace[:i] + [(False, True)])
+                out.append(self.trace[:i] + [(False, True, key)])
         return out
 
     def log(self, kind, *data):
